@@ -146,7 +146,7 @@ pub fn property() -> Property {
             name: "peek-vs-decap",
             rule: "see property rule",
             cases: (360_000, 3_000_000),
-            fuzz_decode: None,
+            fuzz_decode: Some(crate::fuzzdec::c19_case),
             strategy,
             check,
             required_classes: &["frag-id", "label", "reuse-error", "packet-with-extensions", "has-packets"],
